@@ -663,3 +663,20 @@ func ruleCopyTable(r *Run) {
 	r.Min("table_copy_functions", len(sel), 1)
 	runCloneRules(r, sel, "copy", true, nil)
 }
+
+// ruleClonePure (C17): template clone functions never write through their source.
+func ruleClonePure(r *Run) {
+	probe := newRun(r.P, r.Prop, r.Tier)
+	ruleCloneDocument(probe)
+	n := 0
+	for _, k := range probe.order {
+		o := probe.obs[k]
+		if o.Rule == "clone-pure" {
+			n++
+			r.obs[o.Key] = o
+			r.order = append(r.order, o.Key)
+		}
+	}
+	r.Failures = append(r.Failures, probe.Failures...)
+	r.Min("clone_functions_checked_for_purity", n, 17)
+}
